@@ -205,8 +205,9 @@ def expr_st():
 
     def ok(node):
         # QueryBuilder.__eq__/__ne__ compare aliases and return bool: a subquery is never the left operand of ==/!=
+        # (also behind an alias: ["as", ["subq", ..], name] is still the QueryBuilder)
         txt = json.dumps(node)
-        return '["eq", ["subq"' not in txt and '["ne", ["subq"' not in txt
+        return not any(('["%s", %s["subq"' % (op, pre)) in txt for op in ("eq", "ne") for pre in ("", '["as", '))
 
     return st.recursive(leaf, extend, max_leaves=7).filter(ok)
 
